@@ -134,7 +134,8 @@ def judge_single(tval, bval, mode, vr=False):
             if bad_ev or set(ob["created"]) - allowed:
                 out.append(dict(sig="preview/unexpected_file_activity", case=dict(case, show=show, save_report=save),
                                 observed=[bad_ev[:5], ob["created"]], msg="%s with %s: file activity %s, created %s" % (what, tag, bad_ev[:3], ob["created"])))
-            if save and ("cm_colors_quick_report.html" not in ob["created"] or ob["files"].get("cm_colors_quick_report.html", 0) == 0):
+            valid_pair = bool(base["result"]) and base["result"][0] is not None
+            if save and valid_pair and ("cm_colors_quick_report.html" not in ob["created"] or ob["files"].get("cm_colors_quick_report.html", 0) == 0):
                 out.append(dict(sig="preview/report_missing", case=dict(case, show=show, save_report=save), observed=ob["created"],
                                 msg="%s with %s did not write cm_colors_quick_report.html" % (what, tag)))
             if not show and not save and (ob["out"] or ob["err"]):
@@ -148,7 +149,10 @@ def judge_single(tval, bval, mode, vr=False):
 LENIENT = [("rgba(0, 0, 0, 50)", "#ffffff"), ((30, 60, 90, 35), "white"), ("#555555", "rgba(200, 200, 200, 80)"), ("119, 119, 119", "white"),
            ("(119, 119, 119)", "#fff"), ("rgb 119 119 119", "#fff"), ((0.5, 0.5, 0.5), (1.0, 1.0, 1.0)), ((240, 1.0, 0.2), "white"),
            ("rgba(0, 0, 0, 50%)", "white"), ("hsla(0, 0%, 0%, 40)", "white"), (("119", "119", "119"), "white"), ([119, 119, 119, 0.5], [255, 255, 255]),
-           ("rgb(119 119 119 / 0.5)", "white"), ("  #777  ", " WHITE "), ("rgba(0,0,0,1.0)", "rgba(255,255,255,100)")]
+           ("rgb(119 119 119 / 0.5)", "white"), ("  #777  ", " WHITE "), ("rgba(0,0,0,1.0)", "rgba(255,255,255,100)"),
+           # invalid input: constructing and querying it is as silent as for valid input
+           ("bogus", "white"), ("#777", "nope"), ("", ""), ((300, 0, 0), "#fff"), ("rgb(1,2", "#fff"), ("#12", (1, 2)), ((None, 0.5, 0.5, 0.5), "white"),
+           ("inherit", "transparent"), ("var(--x)", "#fff")]
 ENTRIES = [("#777", "#fff"), ((119, 119, 119), (0, 0, 0), True), ("hsl(240, 100%, 2%)", "white"), ("yellow", "white"),
            ("rgba(0,0,0,0.4)", (250, 240, 20)), ("bogus", "white"), ("rgb(200, 200, 100)", "#fff"),
            ((300, 0, 0), "#ffffff"), ("#777", [1, 2])]
